@@ -5,6 +5,7 @@ import (
 	"encoding/json"
 	"fmt"
 	"os"
+	"os/exec"
 	"path/filepath"
 	"sort"
 	"strconv"
@@ -97,10 +98,10 @@ var extractionDrops = []string{
 }
 
 type checkOpts struct {
-	tier    string
-	secs    int
-	workers int
-	seed    int64
+	tier       string
+	secs       int
+	workers    int
+	seed       int64
 	noPriority bool
 }
 
@@ -147,8 +148,104 @@ func cmdCheck(args []string) {
 	}
 	diags := p.loadContracts()
 	run := runProperty(p, def, opts)
+	if opts.tier == "thorough" && os.Getenv("GOVC_REPO") == "" && os.Getenv("GOVC_NO_SELFTEST") == "" {
+		selftestResults = runSelftest(id)
+	}
 	code := report(p, run, opts, diags, time.Since(t0))
 	os.Exit(code)
+}
+
+// selftestResults: outcome of the must-fail selftest of the thorough tier (evidence only, never a verdict).
+var selftestResults []map[string]any
+
+// runSelftest re-runs this property's quick check against every stored seeded change of the property
+// (/verif/seeded/<name>/patch.diff applied to a scratch copy of /repo under the system temp directory, removed
+// afterwards). Each is a change that compiles, keeps the existing tests green and breaks the property; the check
+// must report a violation on it. The result is written into the evidence (coverage.must_fail_selftest); it says
+// how sharp the check is and has no influence on the verdict about the tree under verification.
+func runSelftest(id string) []map[string]any {
+	out := []map[string]any{}
+	dirs, _ := filepath.Glob(filepath.Join(verifDir, "seeded", "*", "meta.json"))
+	sort.Strings(dirs)
+	deadline := time.Now().Add(20 * time.Minute)
+	self, err := os.Executable()
+	if err != nil {
+		return out
+	}
+	for _, mf := range dirs {
+		b, err := os.ReadFile(mf)
+		if err != nil {
+			continue
+		}
+		var meta struct {
+			Property string `json:"property"`
+		}
+		if json.Unmarshal(b, &meta) != nil || meta.Property != id {
+			continue
+		}
+		name := filepath.Base(filepath.Dir(mf))
+		res := map[string]any{"seeded_change": name}
+		out = append(out, res)
+		if time.Now().After(deadline) {
+			res["result"] = "skipped (selftest time budget used up)"
+			continue
+		}
+		tmp, err := os.MkdirTemp("", "govc-selftest-")
+		if err != nil {
+			res["result"] = "skipped (no scratch directory)"
+			continue
+		}
+		tree := filepath.Join(tmp, "tree")
+		cp := exec.Command("rsync", "-a", "--exclude", ".git", repoDir+"/", tree+"/")
+		if err := cp.Run(); err != nil {
+			res["result"] = "skipped (copy failed)"
+			os.RemoveAll(tmp)
+			continue
+		}
+		ap := exec.Command("git", "apply", filepath.Join(filepath.Dir(mf), "patch.diff"))
+		ap.Dir = tree
+		if err := ap.Run(); err != nil {
+			res["result"] = "skipped (the change does not apply to the tree under verification)"
+			os.RemoveAll(tmp)
+			continue
+		}
+		cmd := exec.Command(self, "check", id, "--tier", "quick")
+		cmd.Env = append(os.Environ(), "GOVC_REPO="+tree, "GOVC_OUT="+filepath.Join(tmp, "out"))
+		ob, _ := cmd.Output()
+		nviol := strings.Count(string(ob), "\nVIOLATION ") + boolInt(strings.HasPrefix(string(ob), "VIOLATION "))
+		code := -1
+		if cmd.ProcessState != nil {
+			code = cmd.ProcessState.ExitCode()
+		}
+		res["exit"] = code
+		res["violations"] = nviol
+		if code == 1 && nviol > 0 {
+			res["result"] = "caught"
+			for _, ln := range strings.Split(string(ob), "\n") {
+				if strings.HasPrefix(ln, "VIOLATION ") {
+					if i := strings.Index(ln, "obligation="); i >= 0 {
+						o := ln[i+len("obligation="):]
+						if j := strings.Index(o, " "); j > 0 {
+							o = o[:j]
+						}
+						res["first_failing_obligation"] = o
+					}
+					break
+				}
+			}
+		} else {
+			res["result"] = "MISSED"
+		}
+		os.RemoveAll(tmp)
+	}
+	return out
+}
+
+func boolInt(b bool) int {
+	if b {
+		return 1
+	}
+	return 0
 }
 
 func runProperty(p *Prog, def *PropDef, opts checkOpts) *propRun {
@@ -406,12 +503,16 @@ func writeEvidence(run *propRun, opts checkOpts, claimed, discharged, violations
 	byBackend := map[string]int{}
 	var solverMs int64
 	var samples []obSample
+	nontrivial := 0
 	for _, o := range all {
 		if o.Kind == "cover" {
 			continue
 		}
 		if o.Status == "discharged" {
 			byBackend[o.Solver]++
+			if o.Solver != "trivial" && o.Solver != "structural" && o.Solver != "" {
+				nontrivial++
+			}
 		}
 		solverMs += o.Ms
 		if len(samples) < 400 {
@@ -465,26 +566,29 @@ func writeEvidence(run *propRun, opts checkOpts, claimed, discharged, violations
 		sweeps = append(sweeps, map[string]any{"sweep": sr.Name, "sites": sr.Sites, "explanation": sr.Explanation})
 	}
 	cov := map[string]any{
-		"obligations":              claimed,
-		"discharged":               discharged,
-		"checker_cmd":              fmt.Sprintf("/verif/bin/govc check %s --tier %s  (VCs generated from go/ssa of /repo's working tree with -tags verif; solvers: z3-new, z3, cvc5 raced, %ds per obligation)", def.ID, opts.tier, opts.secs),
-		"trusted_base":             trustedBase,
-		"samples":                  samples,
-		"explanation":              "contract-based deductive verification: one SMT obligation per contract clause / loop invariant / call precondition / frame condition / automatic safety condition of each function under contract; see DESIGN.md",
-		"functions_under_contract": fns,
+		"obligations":                  claimed,
+		"discharged":                   discharged,
+		"checker_cmd":                  fmt.Sprintf("/verif/bin/govc check %s --tier %s  (VCs generated from go/ssa of /repo's working tree with -tags verif; solvers: z3-new, z3, cvc5 raced, %ds per obligation)", def.ID, opts.tier, opts.secs),
+		"trusted_base":                 trustedBase,
+		"samples":                      samples,
+		"explanation":                  "contract-based deductive verification: one SMT obligation per contract clause / loop invariant / call precondition / frame condition / automatic safety condition of each function under contract; see DESIGN.md",
+		"functions_under_contract":     fns,
 		"contracts_used_at_call_sites": ucList,
-		"by_backend":               byBackend,
-		"solver_ms_total":          solverMs,
-		"known_findings":           kf,
-		"undecided":                undecided,
-		"extraction_drops":         extractionDrops,
-		"not_decided_clauses":      def.NotDecided,
-		"bounded":                  def.Bounded,
-		"sweeps":                   sweeps,
-		"contract_diagnostics":     diags,
-		"evaluations":              claimed,
-		"distinct_nontrivial":      discharged,
-		"rule":                     "one evaluation = one proof obligation generated from the current source; non-trivial = discharged by an SMT solver (not syntactically true)",
+		"by_backend":                   byBackend,
+		"solver_ms_total":              solverMs,
+		"known_findings":               kf,
+		"undecided":                    undecided,
+		"extraction_drops":             extractionDrops,
+		"not_decided_clauses":          def.NotDecided,
+		"bounded":                      def.Bounded,
+		"sweeps":                       sweeps,
+		"contract_diagnostics":         diags,
+		"evaluations":                  claimed,
+		"distinct_nontrivial":          nontrivial,
+		"rule":                         "one evaluation = one proof obligation generated from the current source (obligation names are unique); non-trivial = discharged by an SMT solver run (obligations that simplify to true syntactically and structural sweep sites are counted under evaluations only)",
+	}
+	if selftestResults != nil {
+		cov["must_fail_selftest"] = selftestResults
 	}
 	ev := map[string]any{
 		"property_id": def.ID,
